@@ -17,3 +17,7 @@ Check C03_reentrant_is_infinite_recursion : forall fuel b c st log,
 Check eq_refl : force 5 (fun c => ([c], true)) 0 [Waiting] [] = (INFREC, [Errored], [0]).
 Check eq_refl : force_all 9 (fun c => match c with 0 => ([1; 1], true) | _ => ([], true) end) [0; 0; 1]
                   [Waiting; Waiting] [] = ([Computed; Computed], [1; 0]).
+Check C03_sem_log_fuel_independent :
+  forall n m e, n <= m ->
+    fst (JrV.Sem.Interp.run n e) <> JrV.Sem.Interp.OErr JrV.Sem.Interp.KFuel ->
+    snd (JrV.Sem.Interp.run m e) = snd (JrV.Sem.Interp.run n e).
